@@ -621,3 +621,44 @@ func (fi *FuncInfo) Renorm(t *Term) *Term {
 	n := &Term{K: t.K, S: t.S, A: na, V: t.V, Typ: t.Typ, Val: t.Val}
 	return normalize(n)
 }
+
+// FieldOfTerm projects field f out of a struct-valued term.
+func (fi *FuncInfo) FieldOfTerm(t *Term, f string) *Term { return fi.fieldOf(t, f, nil, nil) }
+
+// ResolveLocalField: rt is a load of a local struct assembled by field stores;
+// if exactly one store to field f reaches the load (and dominates instruction
+// at), the term of the stored value is returned.
+func (fi *FuncInfo) ResolveLocalField(rt *Term, f string, at ssa.Instruction) *Term {
+	if rt.K != KLoad {
+		return nil
+	}
+	ft := fi.fieldOf(rt, f, nil, nil)
+	if ft.K != KLoad {
+		return ft
+	}
+	fi.ensureMem()
+	ids := strings.Split(ft.V, ",")
+	if len(ids) != 1 || ids[0] == "" {
+		return nil
+	}
+	d := fi.defByID[ids[0]]
+	if d == nil {
+		return nil
+	}
+	st, ok := d.Instr.(*ssa.Store)
+	if !ok || !Dominates(st, at) {
+		return nil
+	}
+	if fi.Term(st.Addr).Key() == ft.A[0].Key() {
+		return fi.Term(st.Val)
+	}
+	// whole-struct store: project
+	if path, ok := addrSuffix(fi.Term(st.Addr), ft.A[0]); ok {
+		t := fi.Term(st.Val)
+		for _, p := range path {
+			t = fi.fieldOf(t, p, nil, nil)
+		}
+		return t
+	}
+	return nil
+}
